@@ -100,6 +100,7 @@ def config_stream(rep, rng, quick):
             spec = dict(bases=bases, kwargs=kw, params=params)
             jobs.append(dict(theory=spec, cfg=ci, op='DISF2', point=dict(xB=xB, Q2=q)))
             jobs.append(dict(theory=spec, cfg=ci, op='predict', observable='ImH', point=dict(xB=xB, Q2=q, t=-0.2)))
+            jobs.append(dict(theory=spec, cfg=ci, op='Hx', point=dict(x=xB, eta=0, t=0, Q2=q)))
             jobs.append(dict(theory=spec, cfg=ci, op='predict', observable='XGAMMA',
                              point=dict(W=82., Q2=q, t=-0.2, process='gammastarp2rho0p')))
     # main process: one SHARED theory object per configuration, jobs in the listed order
